@@ -24,8 +24,8 @@ def run(ctx):
     if ctx.tier == "quick":
         part = [r for k2, r in enumerate(nb) if (k2 + ctx.seed) % 3 == 0]
         bfs = [("tr2", part, 2), ("all1", allr, 1)]
-        walks = [dict(label="walk-long", tags="r0,castle", walks=5, plies=100, shards=12)]
+        walks = [dict(label="walk-long", tags="r0,castle", walks=5, plies=100, shards=12, undo_pct=35)]
     else:
         bfs = [("tr3", nb, 3), ("r0-2", r0, 2)]
-        walks = [dict(label="walk-long", tags="", walks=20, plies=200, shards=28)]
+        walks = [dict(label="walk-long", tags="", walks=20, plies=200, shards=28, undo_pct=35)]
     board_pipeline(ctx, bfs, walks)
